@@ -123,6 +123,32 @@ def inline_sequential(expr: ast.AST, stmt: ast.stmt, cross=(ast.If, ast.With, as
                 tgt, val = s.targets[0].id, s.value
             elif isinstance(s, ast.AnnAssign) and isinstance(s.target, ast.Name) and s.value is not None:
                 tgt, val = s.target.id, s.value
+            if tgt is None and isinstance(s, ast.Assign) and len(s.targets) == 1 and isinstance(s.targets[0], ast.Tuple) \
+                    and all(isinstance(e, ast.Name) for e in s.targets[0].elts):
+                # `a, b = x, y`  and  `a, b = (f(e) for e in seq[:2])`: element-wise definitions
+                names = [e.id for e in s.targets[0].elts]
+                vals = None
+                if isinstance(s.value, ast.Tuple) and len(s.value.elts) == len(names):
+                    # the right-hand sides are evaluated before any name is bound: only safe to use when none reads a name bound here
+                    if not ({n.id for v in s.value.elts for n in ast.walk(v) if isinstance(n, ast.Name)} & set(names)):
+                        vals = list(s.value.elts)
+                elif isinstance(s.value, (ast.GeneratorExp, ast.ListComp)) and len(s.value.generators) == 1 and not s.value.generators[0].ifs \
+                        and isinstance(s.value.generators[0].target, ast.Name) and isinstance(s.value.generators[0].iter, ast.Subscript) \
+                        and isinstance(s.value.generators[0].iter.slice, ast.Slice) and s.value.generators[0].iter.slice.lower is None \
+                        and s.value.generators[0].iter.slice.step is None and isinstance(s.value.generators[0].iter.slice.upper, ast.Constant) \
+                        and s.value.generators[0].iter.slice.upper.value == len(names):
+                    g = s.value.generators[0]
+                    vals = [_subst_once(clone(s.value.elt), g.target.id,
+                                        ast.Subscript(value=clone(g.iter.value), slice=ast.Constant(value=i), ctx=ast.Load())) for i in range(len(names))]
+                hit = [n for n in names if n in reads]
+                if hit and vals is not None:
+                    for n, v in zip(names, vals):
+                        if n in reads:
+                            cur_expr = _subst_once(cur_expr, n, v)
+                    continue
+                if hit:
+                    frozen |= set(hit)
+                    continue
             if tgt is not None:
                 if tgt in reads and ((isinstance(val, (ast.List, ast.Set, ast.Tuple)) and not val.elts) or (isinstance(val, ast.Dict) and not val.keys)
                                      or (isinstance(val, ast.Call) and isinstance(val.func, ast.Name) and val.func.id in ('list', 'dict', 'set')
